@@ -490,6 +490,103 @@ theorem write_all_at_vec (v : Bytes) (pos : Nat) (data : Bytes) (hne : data ≠ 
     | zero => simp [writeAllAtLoop, hd]
     | succ m => simp [writeAllAtLoop, hd]
 
+/-! ## 10. read_to_string / read_to_string_at -/
+
+/-- **read_to_string, every reader composition, every script**: `t` bytes of the stream arrive
+(exactly as for `read_to_end`); the answer is decided by the UTF-8 validity of *old content ++ those
+bytes* alone — `Ok(t)` with the text, or `InvalidData` with a fresh empty `String`; after an I/O error
+the text read so far is handed back if it is UTF-8 and the `String` is cleared otherwise. -/
+theorem read_to_string_correct (fuel : Nat) (r : Rd) (b : VBuf) (hw : r.WF) (hb : b.data.length ≤ b.cap)
+    (hf : r.rest.length + r.entries < fuel) :
+    ∃ (t : Nat) (r' : Rd) (cap' : Nat), t ≤ r.rest.length ∧ r'.rest = r.rest.drop t ∧
+      ((validUtf8 (b.data ++ r.rest.take t) = true ∧ (r.Live → t = r.rest.length) ∧
+          readToString fuel r b = (.ok t, r', ⟨b.data ++ r.rest.take t, cap'⟩)) ∨
+        (validUtf8 (b.data ++ r.rest.take t) = false ∧ (r.Live → t = r.rest.length) ∧
+          readToString fuel r b = (.invalidData, r', ⟨[], 0⟩)) ∨
+        (∃ k, k ∈ r.errs ∧ ¬ r.Live ∧
+          readToString fuel r b =
+            (.err (.other k), r',
+              ⟨if validUtf8 (b.data ++ r.rest.take t) then b.data ++ r.rest.take t else [], cap'⟩))) := by
+  obtain ⟨t, res, r', cap', h1, h2, _, h4, _, h6⟩ := read_to_end_correct fuel r b hw hb hf
+  refine ⟨t, r', cap', h2, h4, ?_⟩
+  unfold readToString
+  rw [h1]
+  rcases h6 with ⟨a, c⟩ | ⟨k, a, c, d⟩
+  · subst a
+    by_cases hv : validUtf8 (b.data ++ r.rest.take t) = true
+    · exact Or.inl ⟨hv, c, by simp [afterReadToString, hv]⟩
+    · have hv' : validUtf8 (b.data ++ r.rest.take t) = false := by simpa using hv
+      exact Or.inr (Or.inl ⟨hv', c, by simp [afterReadToString, hv']⟩)
+  · subst a
+    refine Or.inr (Or.inr ⟨k, c, d, ?_⟩)
+    by_cases hv : validUtf8 (b.data ++ r.rest.take t) = true
+    · simp [afterReadToString, hv]
+    · have hv' : validUtf8 (b.data ++ r.rest.take t) = false := by simpa using hv
+      simp [afterReadToString, hv']
+
+/-- **from a live reader the answer depends only on the text as a whole** -/
+theorem read_to_string_complete (fuel : Nat) (r : Rd) (b : VBuf) (hw : r.WF) (hl : r.Live)
+    (hb : b.data.length ≤ b.cap) (hf : r.rest.length + r.entries < fuel) :
+    (readToString fuel r b).1 =
+      (if validUtf8 (b.data ++ r.rest) then .ok r.rest.length else .invalidData) ∧
+    (readToString fuel r b).2.2.data = (if validUtf8 (b.data ++ r.rest) then b.data ++ r.rest else []) ∧
+    (readToString fuel r b).2.1.rest = [] := by
+  obtain ⟨r', cap', h1, h2⟩ := read_to_end_complete fuel r b hw hl hb hf
+  unfold readToString
+  rw [h1]
+  by_cases hv : validUtf8 (b.data ++ r.rest) = true
+  · simp [afterReadToString, hv, h2]
+  · have hv' : validUtf8 (b.data ++ r.rest) = false := by simpa using hv
+    simp [afterReadToString, hv', h2]
+
+/-- **read_to_string does not depend on the chunking**: two honest scripts over the same stream —
+whatever their chunk sizes, wherever a multi-byte character is cut, wherever the interruptions are —
+give the same result and the same text. -/
+theorem read_to_string_chunking_independent (f1 f2 : Nat) (s : Bytes) (sc1 sc2 : List Outcome) (b : VBuf)
+    (hb : b.data.length ≤ b.cap) (l1 : (Rd.script s sc1).Live) (l2 : (Rd.script s sc2).Live)
+    (h1 : s.length + sc1.length < f1) (h2 : s.length + sc2.length < f2) :
+    (readToString f1 (.script s sc1) b).1 = (readToString f2 (.script s sc2) b).1 ∧
+    (readToString f1 (.script s sc1) b).2.2.data = (readToString f2 (.script s sc2) b).2.2.data := by
+  obtain ⟨a1, a2, _⟩ := read_to_string_complete f1 (.script s sc1) b trivial l1 hb h1
+  obtain ⟨b1, b2, _⟩ := read_to_string_complete f2 (.script s sc2) b trivial l2 hb h2
+  simp only [Rd.rest] at a1 a2 b1 b2
+  exact ⟨a1.trans b1.symm, a2.trans b2.symm⟩
+
+/-- **`Interrupted` entries are transparent for read_to_string** -/
+theorem read_to_string_interrupted_transparent (f1 f2 : Nat) (s : Bytes) (sc : List Outcome) (b : VBuf)
+    (h1 : s.length + sc.length < f1) (h2 : s.length + (stripIntr sc).length < f2) :
+    readToString f2 (.script s (stripIntr sc)) b =
+      ((readToString f1 (.script s sc) b).1, (readToString f1 (.script s sc) b).2.1.strip,
+        (readToString f1 (.script s sc) b).2.2) := by
+  unfold readToString
+  rw [read_to_end_interrupted_transparent f1 f2 s sc b h1 h2]
+
+/-- **read_to_string_at on `[u8]` / `Vec<u8>`**, every position: decided by the text from `pos` on -/
+theorem read_to_string_at_correct (src : Bytes) (b : VBuf) (pos : Nat) (hb : b.data.length ≤ b.cap) :
+    (readToStringAt src b pos).1 =
+      (if validUtf8 (b.data ++ src.drop pos) then .ok (src.drop pos).length else .invalidData) ∧
+    (readToStringAt src b pos).2.data =
+      (if validUtf8 (b.data ++ src.drop pos) then b.data ++ src.drop pos else []) := by
+  obtain ⟨cap', h⟩ := read_to_end_at_correct src b pos hb
+  unfold readToStringAt
+  rw [h]
+  by_cases hv : validUtf8 (b.data ++ src.drop pos) = true
+  · simp [afterReadToString, hv]
+  · have hv' : validUtf8 (b.data ++ src.drop pos) = false := by simpa using hv
+    simp [afterReadToString, hv']
+
+/-- the validator on the code-point boundaries and the classic malformed forms -/
+example :
+    validUtf8 [0x61, 0xC3, 0xA9, 0xE2, 0x82, 0xAC, 0xF0, 0x9F, 0x98, 0x80, 0xF4, 0x8F, 0xBF, 0xBF, 0xED, 0x9F, 0xBF] = true ∧
+    validUtf8 [0xC0, 0x80] = false ∧ validUtf8 [0xE0, 0x9F, 0xBF] = false ∧ validUtf8 [0xED, 0xA0, 0x80] = false ∧
+    validUtf8 [0xF4, 0x90, 0x80, 0x80] = false ∧ validUtf8 [0xF0, 0x8F, 0xBF, 0xBF] = false ∧
+    validUtf8 [0xE2, 0x82] = false ∧ validUtf8 [0x80] = false ∧ validUtf8 [0xC3, 0x41] = false := by decide
+
+/-- "€" cut after its first and after its second byte, with an interruption in between -/
+example :
+    readToString 20 (.script [0xE2, 0x82, 0xAC] [.ok 1, .intr, .ok 1, .ok 1, .ok 1]) ⟨[0x78], 1⟩ =
+      (.ok 3, .script [] [], ⟨[0x78, 0xE2, 0x82, 0xAC], 33⟩) := by decide
+
 /-! ## 8. non-vacuity: the hypotheses are met by non-trivial data -/
 
 /-- a live, well-formed, three-layer composition: `Take(7)` over `BufReader(3)` over an honest script -/
